@@ -22,7 +22,9 @@ def expand_attractor_seeds(sd: SuccessionDiagram, size_limit: int | None = None)
     # because for every attractor in a minimal trap space, we already have the
     # closest trap space, now we just need to do the same for (potential)
     # motif-avoidant attractors.
-    sd.expand_minimal_spaces(size_limit=size_limit)
+    if not sd.expand_minimal_spaces(size_limit=size_limit):
+        # Size limit reached.
+        return False
 
     if sd.config["debug"]:
         print(
@@ -37,7 +39,12 @@ def expand_attractor_seeds(sd: SuccessionDiagram, size_limit: int | None = None)
         (node, successors) = stack.pop()
         if successors is None:
             # Only allow successor computation if size limit hasn't been exceeded.
-            if (size_limit is not None) and (len(sd) >= size_limit):
+            # (Nodes that are already expanded do not increase the size.)
+            if (
+                (size_limit is not None)
+                and (len(sd) >= size_limit)
+                and not sd.node_data(node)["expanded"]
+            ):
                 # Size limit reached.
                 return False
 
